@@ -25,30 +25,34 @@ type ctxInfo struct {
 }
 
 type shadow struct {
-	session     int
-	open        bool
-	closedWin   bool // between rebclose and rebopen / after close
-	first, last uint16
-	tracked     map[uint16]*SOffset // last position reported (openreq resume or track)
-	resume      map[uint16]SOffset
-	settled     map[uint16][]SOffset // resume, acked, absorbed positions (all sessions since the last crash)
-	ctxs        []*ctxInfo
-	store       map[uint16]SDoc
-	inDump      map[uint16]SDoc
-	inDirty     []uint16
-	inflight    bool
-	advanced    map[uint16]SOffset // last position reached through an ack / non-document event and not yet known durable
-	advAtBegin  map[uint16]SOffset
+	session        int
+	open           bool
+	closedWin      bool // between rebclose and rebopen / after close
+	first, last    uint16
+	tracked        map[uint16]*SOffset // last position reported (openreq resume or track)
+	resume         map[uint16]SOffset
+	settled        map[uint16][]SOffset // resume, acked, absorbed positions (all sessions since the last crash)
+	ctxs           []*ctxInfo
+	store          map[uint16]SDoc
+	inDump         map[uint16]SDoc
+	inDirty        []uint16
+	inflight       bool
+	advanced       map[uint16]SOffset // last position reached through an ack / non-document event and not yet known durable
+	advAtBegin     map[uint16]SOffset
 	trackedAtBegin map[uint16]SOffset
-	snap        map[uint16]*[2]uint64
-	uuid        map[uint16]uint64
-	catchup     map[uint16]*uint64
-	ended       map[uint16]bool
-	counts      map[uint16]*[3]uint64
-	stopped     bool
-	absorbedOver map[uint16]bool // an absorbed event overtook an outstanding delivery (K1 situation)
-	oooAck      map[uint16]bool // acknowledgements of this vb were not in delivery order / stale
-	rebalances  uint64
+	snap           map[uint16]*[2]uint64
+	uuid           map[uint16]uint64
+	catchup        map[uint16]*uint64
+	ended          map[uint16]bool
+	counts         map[uint16]*[3]uint64
+	stopped        bool
+	absorbedOver   map[uint16]bool // an absorbed event overtook an outstanding delivery (K1 situation)
+	oooAck         map[uint16]bool // acknowledgements of this vb were not in delivery order / stale
+	rebalances     uint64
+	metaOnly       map[uint16]bool
+	advStamp       map[uint16]int // op index of the last advance of a vBucket
+	beginIdx       int
+	latest         map[uint16]uint64 // end bound every request / offset of the session must carry
 }
 
 func newShadow(h *SHistory) *shadow {
@@ -68,6 +72,9 @@ func (s *shadow) reset() {
 	s.ended, s.counts = map[uint16]bool{}, map[uint16]*[3]uint64{}
 	s.absorbedOver, s.oooAck = map[uint16]bool{}, map[uint16]bool{}
 	s.rebalances = 0
+	s.latest = map[uint16]uint64{}
+	s.metaOnly = map[uint16]bool{}
+	s.advStamp = map[uint16]int{}
 	s.session++
 }
 
@@ -96,12 +103,63 @@ func monitorStream(which string) StreamMonitor {
 		for _, f := range h.Faith {
 			viol("C03", "unfaithful", f, len(h.Ops))
 		}
+		onMetaSave := func(i int, o SOut) {
+			s.inflight, s.inDump, s.inDirty = true, o.Dump, o.Dirty
+			s.beginIdx = i
+			s.advAtBegin, s.trackedAtBegin = map[uint16]SOffset{}, map[uint16]SOffset{}
+			for vb, a := range s.advanced {
+				s.advAtBegin[vb] = a
+			}
+			for vb, t := range s.tracked {
+				s.trackedAtBegin[vb] = *t
+			}
+			dirty := map[uint16]bool{}
+			for _, vb := range o.Dirty {
+				dirty[vb] = true
+			}
+			for vb, d := range o.Dump {
+				// C01 (a): the dumped position was settled before the save began
+				ok := false
+				for _, st := range s.settled[vb] {
+					if (SDoc{st.UUID, st.Seq, st.Start, st.End}) == d {
+						ok = true
+					}
+				}
+				if !ok {
+					viol("C01", "unsettled-position-saved", fmt.Sprintf("op %d: save of vb %d writes %+v, which is neither the resume position nor a settled event (settled: %v)", i, vb, d, s.settled[vb]), i)
+				}
+				if vb < s.first || vb > s.last {
+					viol("C04", "foreign-checkpoint", fmt.Sprintf("op %d: save contains a document for vb %d outside the assigned range %d-%d", i, vb, s.first, s.last), i)
+				}
+				if t, ok := s.tracked[vb]; ok && !s.closedWin && (SDoc{t.UUID, t.Seq, t.Start, t.End}) != d {
+					viol("C05", "dump-not-tracked", fmt.Sprintf("op %d: save of vb %d dumps %+v but the tracked position is %+v", i, vb, d, *t), i)
+				}
+			}
+			for _, vb := range o.Dirty {
+				if _, adv := s.advanced[vb]; !adv && s.metaOnly[vb] && !s.closedWin {
+					viol("C14", "own-write-flagged", fmt.Sprintf("op %d: vb %d is marked for saving although only reserved-key events advanced it since the last save", i, vb), i)
+				}
+			}
+			s.metaOnly = map[uint16]bool{}
+			for vb := range s.advanced {
+				if !dirty[vb] && vb >= s.first && vb <= s.last && !s.closedWin {
+					viol("C05", "advanced-not-dirty", fmt.Sprintf("op %d: vb %d was advanced by an acknowledgement / non-document event since the last successful save but is not marked for writing", i, vb), i)
+				}
+			}
+		}
 		for i, op := range h.Ops {
 			outs := h.Outs[i]
 			failed := false
 			for _, o := range outs {
 				if o.Kind == "fail" {
 					failed = true
+				}
+				// C02/C12: the end bound is unbounded in infinite mode, the high seqno sampled at open in finite mode
+				staleAck := op.Kind == "ack" && op.I < len(s.ctxs) && s.ctxs[op.I].session != s.session
+				if o.Off != nil && !staleAck && !s.oooAck[o.Vb] && (o.Kind == "consume" || o.Kind == "track" || (o.Kind == "openreq" && op.Kind == "end")) {
+					if want, ok := s.latest[o.Vb]; ok && o.Off.Latest != want && s.open {
+						viol("C12", "end-bound", fmt.Sprintf("op %d (%s): vb %d carries end seqno %d, the session's end bound is %d", i, o.Kind, o.Vb, o.Off.Latest, want), i)
+					}
 				}
 				// C06: every offset handed out is a valid resume point
 				if o.Off != nil && (o.Kind == "consume" || o.Kind == "track" || o.Kind == "openreq") && !validOff(*o.Off) {
@@ -128,6 +186,7 @@ func monitorStream(which string) StreamMonitor {
 				s.counts = map[uint16]*[3]uint64{}
 				s.absorbedOver, s.oooAck = map[uint16]bool{}, map[uint16]bool{}
 				s.advanced = map[uint16]SOffset{} // Load installs a fresh dirty set
+				s.metaOnly = map[uint16]bool{}
 				if op.Kind == "rebopen" {
 					s.rebalances++
 				}
@@ -140,6 +199,18 @@ func monitorStream(which string) StreamMonitor {
 					off := *o.Off
 					s.tracked[o.Vb] = &off
 					s.resume[o.Vb] = off
+					want := ^uint64(0)
+					if h.Cfg.Finite {
+						want = op.Sv.High[o.Vb]
+					}
+					s.latest[o.Vb] = want
+					if off.Latest != want {
+						viol("C12", "end-bound", fmt.Sprintf("op %d: vb %d requested with end seqno %d, expected %d", i, o.Vb, off.Latest, want), i)
+					}
+					if _, stored := s.store[o.Vb]; !stored && h.Cfg.Latest && off.Seq != 0 {
+						s.advanced[o.Vb] = off // auto-reset 'latest' marks the fresh position for saving
+						s.advStamp[o.Vb] = i
+					}
 					s.settled[o.Vb] = append(s.settled[o.Vb], off)
 					s.uuid[o.Vb] = op.Sv.UUID[o.Vb]
 					s.counts[o.Vb] = &[3]uint64{}
@@ -305,6 +376,9 @@ func monitorStream(which string) StreamMonitor {
 					s.settled[vb] = append(s.settled[vb], off)
 					if ev.Kind == "sys" || ev.Kind == "seqadv" {
 						s.advanced[vb] = off
+						s.advStamp[vb] = i
+					} else {
+						s.metaOnly[vb] = true
 					}
 					for _, cx := range s.ctxs {
 						if cx.vb == vb && !cx.acked && cx.session == s.session && cx.off.Seq < off.Seq {
@@ -350,6 +424,7 @@ func monitorStream(which string) StreamMonitor {
 						s.noteTrack(cx.vb, *t.Off, i, viol, s.closedWin)
 						s.settled[cx.vb] = append(s.settled[cx.vb], *t.Off)
 						s.advanced[cx.vb] = *t.Off
+						s.advStamp[cx.vb] = i
 					}
 					if inRange {
 						s.settled[cx.vb] = append(s.settled[cx.vb], cx.off)
@@ -357,46 +432,20 @@ func monitorStream(which string) StreamMonitor {
 				}
 			case "savebegin":
 				if len(outs) == 1 && outs[0].Kind == "metasave" {
-					o := outs[0]
-					s.inflight, s.inDump, s.inDirty = true, o.Dump, o.Dirty
-					s.advAtBegin, s.trackedAtBegin = map[uint16]SOffset{}, map[uint16]SOffset{}
-					for vb, a := range s.advanced {
-						s.advAtBegin[vb] = a
-					}
-					for vb, t := range s.tracked {
-						s.trackedAtBegin[vb] = *t
-					}
-					dirty := map[uint16]bool{}
-					for _, vb := range o.Dirty {
-						dirty[vb] = true
-					}
-					for vb, d := range o.Dump {
-						// C01 (a): the dumped position was settled before the save began
-						ok := false
-						for _, st := range s.settled[vb] {
-							if (SDoc{st.UUID, st.Seq, st.Start, st.End}) == d {
-								ok = true
-							}
-						}
-						if !ok {
-							viol("C01", "unsettled-position-saved", fmt.Sprintf("op %d: save of vb %d writes %+v, which is neither the resume position nor a settled event (settled: %v)", i, vb, d, s.settled[vb]), i)
-						}
-						if vb < s.first || vb > s.last {
-							viol("C04", "foreign-checkpoint", fmt.Sprintf("op %d: save contains a document for vb %d outside the assigned range %d-%d", i, vb, s.first, s.last), i)
-						}
-						if t, ok := s.tracked[vb]; ok && !s.closedWin && (SDoc{t.UUID, t.Seq, t.Start, t.End}) != d {
-							viol("C05", "dump-not-tracked", fmt.Sprintf("op %d: save of vb %d dumps %+v but the tracked position is %+v", i, vb, d, *t), i)
-						}
-					}
-					for vb := range s.advanced {
-						if !dirty[vb] && vb >= s.first && vb <= s.last && !s.closedWin {
-							viol("C05", "advanced-not-dirty", fmt.Sprintf("op %d: vb %d was advanced by an acknowledgement / non-document event since the last successful save but is not marked for writing", i, vb), i)
-						}
-					}
+					onMetaSave(i, outs[0])
 				} else if len(outs) == 1 && outs[0].Kind == "nosave" {
 					for vb := range s.advanced {
 						if vb >= s.first && vb <= s.last && !s.closedWin {
 							viol("C05", "skipped-save", fmt.Sprintf("op %d: Save() wrote nothing although vb %d was advanced since the last successful save", i, vb), i)
+							break
+						}
+					}
+				}
+			case "savequeue":
+				if len(outs) == 1 && outs[0].Kind == "nosave" && s.inflight && !s.closedWin {
+					for vb := range s.advanced {
+						if s.advStamp[vb] > s.beginIdx && vb >= s.first && vb <= s.last {
+							viol("C05", "queued-save-dropped", fmt.Sprintf("op %d: a Save() issued while another save was in flight returned without waiting although vb %d was acknowledged after that save began: its position is left unpersisted", i, vb), i)
 							break
 						}
 					}
@@ -421,9 +470,10 @@ func monitorStream(which string) StreamMonitor {
 						}
 						// positions advanced before the save began are now durable; later ones stay pending
 						for vb, a := range s.advAtBegin {
-							if cur, ok := s.advanced[vb]; ok && cur == a {
-								delete(s.advanced, vb) // nothing newer was acknowledged meanwhile
+							if _, ok := s.advanced[vb]; ok && s.advStamp[vb] < s.beginIdx {
+								delete(s.advanced, vb) // nothing was acknowledged after the save began
 							}
+							_ = a
 							if tb, ok := s.trackedAtBegin[vb]; ok && vb >= s.first && vb <= s.last {
 								if d, ok2 := s.store[vb]; !ok2 || d != (SDoc{tb.UUID, tb.Seq, tb.Start, tb.End}) {
 									if _, dumped := s.inDump[vb]; dumped {
@@ -433,7 +483,23 @@ func monitorStream(which string) StreamMonitor {
 							}
 						}
 					}
+					if !op.Ok {
+						// a failed save gives its marks back: those vBuckets are pending again, whatever happened meanwhile
+						for _, vb := range s.inDirty {
+							if t, ok := s.tracked[vb]; ok {
+								s.advanced[vb] = *t
+							} else {
+								s.advanced[vb] = SOffset{}
+							}
+							s.advStamp[vb] = i - 1 // before a queued save that may begin within this very op
+						}
+					}
 					s.inflight = false
+				}
+				for _, o := range outs {
+					if o.Kind == "metasave" { // a queued Save() took the lock
+						onMetaSave(i, o)
+					}
 				}
 			case "end":
 				if op.Cause == "transient" {
